@@ -373,7 +373,19 @@ class Gen:
                 elif opn in ('neg', 'sqr', 'reciprocal'):
                     ok = self.try_op(opn, [rng.choice(S)], {}, ['S'])
                 elif opn == 'pow':
-                    ok = self.try_op(opn, [rng.choice(S)], {'n': rng.choice((0, 1, 2, 3, 5, -1, -2, self.q - 1, self.q - 2, 254))}, ['S'])
+                    exps = [0, 1, 2, 3, 5, -1, -2, self.q - 1, self.q - 2, 254]
+                    if self.q < (1 << 20):
+                        # exponents at and beyond the group order (a^(q-1) = 1 holds for a != 0 only)
+                        exps += [self.q, self.q + 1, 2 * (self.q - 1), 3 * (self.q - 1), 2 * self.q, 1 - self.q,
+                                 (self.q - 1) * rng.randint(2, 9), (self.q - 1) * rng.randint(2, 9) + 1]
+                    base = rng.choice(S)
+                    if rng.random() < 0.3:
+                        zeros = [v for v in S if self.val[v] == 0]
+                        if not zeros and self.try_op('const', [], {'value': 0}, ['S']):
+                            zeros = [S[-1]]
+                        if zeros:
+                            base = rng.choice(zeros)
+                    ok = self.try_op(opn, [base], {'n': rng.choice(exps)}, ['S'])
                 else:
                     c = rng.randrange(self.q) if td['d'] == 1 else rng.randrange(min(self.q, 1 << 30))
                     if td['d'] == 1 and rng.random() < 0.3:
